@@ -73,6 +73,7 @@ type Scenario struct {
 	ShutdownAt int           `json:"shutdown_at"` // -1: never; k: the exporter is shut down once response k has been written (trace exporters)
 	Timed      bool          `json:"timed"`       // outcome depends on real time: the model is not compared, only the specification
 	Gzip       bool          `json:"gzip"`
+	Throttled  []int64       `json:"throttled_delays_ns,omitempty"` // accumulated-throttle scenario: the delays asked for, in the unit the client reads
 	Kind       string        `json:"kind"`
 	Token      string        `json:"token"`
 }
@@ -607,6 +608,55 @@ func fixedCorpus() []Scenario {
 	return out
 }
 
+// accumulatedThrottle: k = 2..6 consecutive retry-able replies each carrying a server throttle (gRPC RetryInfo;
+// HTTP Retry-After written in the unit the client reads, i.e. nanoseconds), every delay below MaxElapsedTime
+// and far above the back-off, their sum beyond it; afterwards the collector keeps failing retry-ably for ever.
+// One scenario per k for each of the six exporters (each has its own copy of internal/retry/retry.go).
+func accumulatedThrottle(r *vgen.Rand) []Scenario {
+	var out []Scenario
+	for e := 0; e < 6; e++ {
+		for k := 2; k <= 6; k++ {
+			sc := Scenario{Exporter: e, Enabled: true, Initial: time.Millisecond, CancelAt: -1, ShutdownAt: -1, Timed: true, Kind: "accumulated-throttle"}
+			tight := r.Chance(2, 3) // delays just large enough for the sum to overrun: the loop has to add up all k of them
+			for {
+				sc.MaxElapsed = time.Duration(vgen.Pick(r, []int{200, 250, 300})) * time.Millisecond
+				sc.Throttled = nil
+				var sum time.Duration
+				for i := 0; i < k; i++ {
+					d := time.Duration(60+r.Intn(91)) * time.Millisecond
+					if tight {
+						sc.MaxElapsed = 300 * time.Millisecond
+						d = max(60*time.Millisecond, (sc.MaxElapsed+40*time.Millisecond)/time.Duration(k)) + time.Duration(r.Intn(8))*time.Millisecond
+					}
+					if k == 2 {
+						d = time.Duration(115+r.Intn(36)) * time.Millisecond
+						sc.MaxElapsed = 200 * time.Millisecond
+					}
+					sc.Throttled = append(sc.Throttled, int64(d))
+					sum += d
+				}
+				if sum > sc.MaxElapsed+20*time.Millisecond {
+					break
+				}
+			}
+			for _, d := range sc.Throttled {
+				if isHTTP(e) {
+					sc.Script = append(sc.Script, Resp{Status: vgen.Pick(r, retryStatuses), RetryAfter: strconv.FormatInt(d, 10)})
+				} else {
+					sc.Script = append(sc.Script, Resp{Code: vgen.Pick(r, []int{14, 8, 1, 10}), HasInfo: true, InfoNs: d})
+				}
+			}
+			if isHTTP(e) {
+				sc.Script = append(sc.Script, Resp{Status: 503})
+			} else {
+				sc.Script = append(sc.Script, Resp{Code: 14})
+			}
+			out = append(out, sc)
+		}
+	}
+	return out
+}
+
 func classificationSweep(tier string) []Scenario {
 	var out []Scenario
 	for e := 0; e < 6; e++ {
@@ -677,6 +727,7 @@ func main() {
 
 	var scs []Scenario
 	scs = append(scs, fixedCorpus()...)
+	scs = append(scs, accumulatedThrottle(r.Fork())...)
 	scs = append(scs, classificationSweep(o.Tier)...)
 	n := o.Count(900, 12000)
 	for i := 0; i < n; i++ {
@@ -709,6 +760,26 @@ func main() {
 			continue
 		}
 		http := isHTTP(sc.Exporter)
+		if len(sc.Throttled) > 0 {
+			var ds, hs, gs []string
+			minD := sc.Throttled[0]
+			for _, d := range sc.Throttled {
+				ds = append(ds, vgen.Z(d))
+				minD = min(minD, d)
+			}
+			for _, h := range ob.Hashes {
+				hs = append(hs, vgen.N(h))
+			}
+			for _, g := range ob.GapsNs {
+				gs = append(gs, vgen.Z(g))
+			}
+			term := vgen.App("CThrottled", vgen.N(uint64(sc.Exporter)), vgen.Z(int64(sc.MaxElapsed)), vgen.Z(minD), vgen.List(ds),
+				vgen.Nat(ob.Attempts), vgen.List(hs), vgen.List(gs), vgen.N(uint64(ob.ErrClass)), vgen.Z(ob.Elapsed))
+			w.Tally("exporter:" + exporterNames[sc.Exporter])
+			w.Tally(fmt.Sprintf("accumulated-throttle:k=%d,attempts=%d", len(sc.Throttled), ob.Attempts))
+			w.Add(term, desc, sc.Kind+"-"+exporterNames[sc.Exporter], true)
+			continue
+		}
 		var script []string
 		for _, rs := range sc.Script {
 			script = append(script, respCoq(http, rs))
